@@ -8,6 +8,9 @@ import (
 	"fmt"
 	"math"
 	"math/rand/v2"
+	"runtime"
+	"sync"
+	"sync/atomic"
 	"testing"
 	"testing/synctest"
 	"time"
@@ -207,6 +210,210 @@ func defaultLimiterCase(t *testing.T, idx int64, r *rand.Rand) {
 	}
 }
 
+// ---- simultaneous completions -------------------------------------------------------------------------------
+// Several completions of one limiter happen at the same virtual instant from different goroutines (with a yield at
+// the verif point before the update lock).  The pending window is then only known up to the order in which the
+// completions were folded, so the monitor keeps the set of candidate pending folds.  A delivery is legal iff it
+// equals candidate + some non-empty subset of the simultaneous completions, with more than windowSize successes;
+// what was not part of the delivered window may or may not survive the reset.
+
+type cand struct {
+	f fold
+}
+
+type comp struct {
+	drop     bool
+	rtt      int64
+	inflight int
+}
+
+func addTo(f fold, c comp) fold {
+	if c.drop {
+		f.drop(c.inflight)
+	} else {
+		f.success(c.rtt, c.inflight)
+	}
+	return f
+}
+
+func simultaneousCase(t *testing.T, idx int64, r *rand.Rand) {
+	windowSize := 10 + r.IntN(4)
+	rec := inject.NewScriptedLimit(100, func(n int) int { return 60 + (n*7)%40 })
+	st := strategy.NewSimpleStrategy(100)
+	dl, err := limiter.NewDefaultLimiter(rec, 1, 1, 0, windowSize, st, limit.NoopLimitLogger{}, core.EmptyMetricRegistryInstance)
+	if err != nil {
+		panic(err)
+	}
+	yields := []int{0, 20, 300}[r.IntN(3)]
+	limiter.SetVerifHook(func(name string) {
+		if name == "default.before_update" {
+			for i := 0; i < yields; i++ {
+				runtime.Gosched()
+			}
+		}
+	})
+	defer limiter.SetVerifHook(nil)
+	var log []string
+	deliveries, simRounds, boundary := 0, 0, 0
+	bubble(t, func(t *testing.T) {
+		cands := []fold{newFold()}
+		fail := func(sig string, extra rt.J) {
+			extra["window_size"], extra["rounds_tail"], extra["candidate_pending_folds"] = windowSize, log[max(0, len(log)-25):], cands
+			rt.Violation("C09/default/simultaneous/"+sig, idx, extra)
+		}
+		for round := 0; round < 60+r.IntN(120); round++ {
+			k := 1
+			if r.IntN(3) == 0 {
+				k = 2 + r.IntN(2)
+			}
+			// acquire k tokens at staggered instants so that their RTTs differ
+			type tok struct {
+				l  core.Listener
+				at time.Time
+				n  int
+			}
+			var toks []tok
+			for i := 0; i < k; i++ {
+				l, ok := dl.Acquire(context.Background())
+				if !ok {
+					fail("harness-acquire-refused", rt.J{})
+					return
+				}
+				toks = append(toks, tok{l, time.Now(), i + 1})
+				time.Sleep(time.Duration(1 + r.IntN(50)))
+			}
+			time.Sleep(time.Duration(2 + r.IntN(1000)))
+			now := time.Now()
+			comps := make([]comp, k)
+			for i, tk := range toks {
+				comps[i] = comp{drop: r.IntN(6) == 0, rtt: now.Sub(tk.at).Nanoseconds(), inflight: tk.n}
+			}
+			before := rec.Count()
+			if k == 1 {
+				if comps[0].drop {
+					toks[0].l.OnDropped()
+				} else {
+					toks[0].l.OnSuccess()
+				}
+			} else {
+				simRounds++
+				var wg sync.WaitGroup
+				var ready atomic.Int32
+				for i := range toks {
+					wg.Add(1)
+					go func(i int) {
+						defer wg.Done()
+						ready.Add(1)
+						for ready.Load() < int32(k) {
+							runtime.Gosched()
+						}
+						if comps[i].drop {
+							toks[i].l.OnDropped()
+						} else {
+							toks[i].l.OnSuccess()
+						}
+					}(i)
+				}
+				wg.Wait()
+			}
+			synctest.Wait()
+			delivered := rec.Count() - before
+			log = append(log, fmt.Sprintf("t=%d completions=%+v delivered=%d", now.UnixNano(), comps, delivered))
+			rt.Count("simultaneous_rounds_completions", int64(k))
+			if delivered > 1 {
+				fail("more-than-one-delivery-at-one-instant", rt.J{"count": delivered})
+				return
+			}
+			// all ways the round can have been folded
+			var next []fold
+			legal := false
+			var d inject.RecSample
+			if delivered == 1 {
+				d, _ = rec.Last()
+			}
+			for _, c := range cands {
+				if c.Count+countSucc(comps) == windowSize+1 && k > 1 {
+					boundary++
+				}
+				if delivered == 0 {
+					all := c
+					for _, x := range comps {
+						all = addTo(all, x)
+					}
+					if !(all.Count > windowSize) { // a ready window would have had to be delivered
+						next = append(next, all)
+					}
+					continue
+				}
+				for mask := 1; mask < 1<<k; mask++ {
+					f := c
+					for i, x := range comps {
+						if mask&(1<<i) != 0 {
+							f = addTo(f, x)
+						}
+					}
+					if f.Count > windowSize && f.Count > 0 && d.RTT == f.MinRTT && d.InFlight == f.MaxIF && d.Drop == f.Drop {
+						legal = true
+						rest := (1<<k - 1) &^ mask
+						for sub := rest; ; sub = (sub - 1) & rest { // every subset of the rest may have survived the reset
+							g := newFold()
+							for i, x := range comps {
+								if sub&(1<<i) != 0 {
+									g = addTo(g, x)
+								}
+							}
+							next = append(next, g)
+							if sub == 0 {
+								break
+							}
+						}
+					}
+				}
+			}
+			if delivered == 1 {
+				deliveries++
+				rt.Count("simultaneous_windows_delivered", 1)
+				if !legal {
+					fail("delivered-window-is-no-fold-of-a-ready-window", rt.J{"delivered": d, "completions_at_this_instant": comps})
+					return
+				}
+			} else if len(next) == 0 {
+				fail("ready-window-not-delivered", rt.J{"completions_at_this_instant": comps})
+				return
+			}
+			cands = dedupe(next)
+		}
+	})
+	rt.Count("simultaneous_cases", 1)
+	rt.Count("simultaneous_rounds", int64(simRounds))
+	rt.Count("simultaneous_rounds_at_the_readiness_boundary", int64(boundary))
+	if deliveries >= 2 {
+		rt.Distinct(fmt.Sprintf("sim|%d|%d|%d|%v", windowSize, yields, deliveries, log[len(log)-1]))
+	}
+}
+
+func countSucc(cs []comp) int {
+	n := 0
+	for _, c := range cs {
+		if !c.drop {
+			n++
+		}
+	}
+	return n
+}
+
+func dedupe(fs []fold) []fold {
+	seen := map[fold]bool{}
+	var out []fold
+	for _, f := range fs {
+		if !seen[f] {
+			seen[f] = true
+			out = append(out, f)
+		}
+	}
+	return out
+}
+
 func max1(v int) int {
 	if v < 1 {
 		return 1
@@ -338,7 +545,9 @@ func TestCheck(t *testing.T) {
 	rt.Cases(6000, 600000, func(idx int64) {
 		r := rt.CaseRand(9, idx)
 		rt.Case()
-		if idx%4 == 0 {
+		if idx%8 == 1 {
+			simultaneousCase(t, idx, r)
+		} else if idx%4 == 0 {
 			defaultLimiterCase(t, idx, r)
 		} else {
 			windowedCase(idx, r)
